@@ -17,6 +17,12 @@ C13.e  "unknown" window: written iff the flag is false, flag cleared before the
        first store after a strike-out, loader maps it back (and a dict / a missing
        file to flag true).
 C13.f  clean shutdown writes the exact state before releasing the lock.
+C13.g  _load assumes an empty window only when no state file exists.
+C13.h  the recovered window starts exactly at the Echo-verified number (C12.c).
+C13.i  distinct numbers give distinct nonces (C11.c).
+C13.j  initialize_from_persisted restores the file's fields verbatim.
+C13.k  the number that initialises an unknown window in unprotect is the incoming message's own partial
+       IV, never the local request's (C12.f).
 
 Idioms accepted in _store (anything else stops the rule with an analysis error):
   * temp file: `h, name = tempfile.mkstemp(dir=D, ...)` (dir as keyword or third
@@ -1268,6 +1274,30 @@ def j_verbatim(ctx):
         ctx.ob("%s is restored exactly as persisted under %r" % (attr, key), ok, fi, st[0][1] if st else fi.node, construct=stmt_text(st[0][1]) if st else "initialize_from_persisted: %s" % attr)
 
 
+@R.clause("C13.k", "an unknown (uninitialised) window is never initialised from this node's own numbers: the number handed to the replay window in unprotect is the incoming message's OWN partial IV, a message without one contributes nothing (shared with C12.f)")
+def k_shared(ctx):
+    """Added after an independently written breaking change (fourth round) let the response arm of the recovery in
+    CanUnprotect.unprotect call initialize_from_freshlyseen(int.from_bytes(<partial IV bytes>)) without requiring that
+    the response carried a partial IV of its own.  For an ordinary response those bytes are the partial IV of the
+    LOCAL request (request_id.partial_iv), i.e. this node's sender sequence number: a context reloaded after an unclean
+    stop (window 'unknown', C13.e/g) that first acts as a client got its window for the peer "initialised" at an
+    unrelated, typically small number, and every request of the peer seen before the crash with a higher number was
+    accepted again without any Echo exchange -- the last sentence of the property.
+
+    Necessary condition (in terms of today's code): whatever reaches ReplayWindow.initialize_from_freshlyseen /
+    is_valid / strike_out in unprotect is, on every path and in every arm of a conditional expression, either the
+    sentinel None or the big-endian integer of bytes that were read from the COSE_PIV entry of the incoming message's
+    own unprotected header map, under evidence that the entry existed (the `COSE_PIV in <map>` outcome, a read that
+    raises without the key, or an `is not None` test of a lenient read).  It is a statement about definitions that
+    reach the call (def-use over the value-aware path model of c12.window_site_facts), not about the `if seqno is not
+    None` guard: the guard may be spelled any way, moved, or replaced by a sentinel / flag, as long as no definition
+    taken from request_id (or anything else that is not the message's own option) reaches the window.  The rule and its
+    evaluator live in c12.f_own_piv (the condition is the same fact C12 needs for replay protection within a lifetime);
+    C13 owes it for the crash-recovery half, like C13.h."""
+    from . import c12
+    c12.f_own_piv(ctx)
+
+
 F_ = "aiocoap/oscore.py"
 R.seed("C13.a", F_, "        if retval >= MAX_SEQNO:", "        if retval > MAX_SEQNO:", ">= -> > in the exhaustion test")
 R.seed("C13.a", F_, "MAX_SEQNO = 2**40 - 1", "MAX_SEQNO = 2**40", "limit one too high")
@@ -1331,6 +1361,17 @@ R.seed("C13.h", F_, "        self._index = seen\n        self._bitfield = 1\n", 
 R.seed("C13.i", F_, "partial_iv.lstrip(b\"\\0\")", "partial_iv.strip(b\"\\0\")", "trailing zero bytes stripped too: 256 gets the partial IV of 1")
 
 R.seed("C13.j", F_, "        self._index = persisted[\"index\"]\n        self._bitfield = persisted[\"bitfield\"]\n", "        self._index = int(persisted[\"index\"] or 0)\n        self._bitfield = int(persisted[\"bitfield\"] or 0)\n", "null window (clean stop while waiting for Echo) restored as an empty initialised window")
+
+_RESP_INIT = "                if seqno is not None:\n                    self.recipient_replay_window.initialize_from_freshlyseen(seqno)\n"
+R.seed("C13.k", F_, _RESP_INIT,
+       "                fresh = seqno if seqno is not None else int.from_bytes(partial_iv_short, \"big\")\n                self.recipient_replay_window.initialize_from_freshlyseen(fresh)\n",
+       "a response without a partial IV of its own initialises the unknown window from the local request's number (fallback arm of a conditional expression)")
+R.seed("C13.k", F_, _RESP_INIT,
+       "                if partial_iv_short:\n                    self.recipient_replay_window.initialize_from_freshlyseen(int.from_bytes(partial_iv_short, \"big\"))\n",
+       "the recovery tests the bytes that feed the nonce (always present) instead of the own-PIV sentinel: window initialised from this node's sender sequence number")
+R.seed("C13.k", F_, "            seqno = None  # sentinel for not striking out anything\n            partial_iv_short = request_id.partial_iv\n",
+       "            partial_iv_short = request_id.partial_iv\n            seqno = int.from_bytes(partial_iv_short, \"big\") if is_response else None\n",
+       "the sentinel survives only where it cannot occur (a request without PIV is refused just above): responses are numbered by the request's partial IV")
 
 # seeds for the generalised forms: the same faults, spelled the way the refactorings spell the code
 _LOAD_TAIL_OLD = (
